@@ -7,55 +7,56 @@
   that buffers its input (io.ReadAll) allocate three orders of magnitude more: finding F-chttp-bomb.
 -/
 import Relic.Proofs.CompressHttp
+import Relic.Generated.CompressHttp
 namespace Relic.Props.C11
 open Relic Relic.Transport Relic.CompressHttp
 
 /-- the statement one would like: some limit `L` bounds what any handler is made to read -/
 def decompress_bounded_full : Prop :=
-  ∃ L : Nat, ∀ (C : Codecs) (next : Handler) (pre : Option Nat) (r : Req) (b : Bytes),
-    (middleware C next pre r).ran = some (.complete b) → b.length ≤ L
+  ∃ L : Nat, ∀ (fx : Bool) (C : Codecs) (next : Handler) (pre : Option Nat) (r : Req) (b : Bytes),
+    (middlewareG fx C next pre r).ran = some (.complete b) → b.length ≤ L
 
 /-- **decompress_unbounded.**  It is false — for every pair of codecs, every coding `k` and every
     length `n` there is a request under that coding whose body the handler reads to a clean end with
     exactly `n` decoded bytes. -/
 theorem decompress_unbounded :
-    (∀ (C : Codecs) (next : Handler) (pre : Option Nat) (k : Coding) (n : Nat),
+    (∀ (fx : Bool) (C : Codecs) (next : Handler) (pre : Option Nat) (k : Coding) (n : Nat),
       ∃ r : Req, requestCoding r = some k ∧
-        (middleware C next pre r).ran = some (.complete (List.replicate n 0))) ∧
+        (middlewareG fx C next pre r).ran = some (.complete (List.replicate n 0))) ∧
     ¬ decompress_bounded_full := by
-  have key : ∀ (C : Codecs) (next : Handler) (pre : Option Nat) (k : Coding) (n : Nat),
+  have key : ∀ (fx : Bool) (C : Codecs) (next : Handler) (pre : Option Nat) (k : Coding) (n : Nat),
       ∃ r : Req, requestCoding r = some k ∧
-        (middleware C next pre r).ran = some (.complete (List.replicate n 0)) := by
-    intro C next pre k n
+        (middlewareG fx C next pre r).ran = some (.complete (List.replicate n 0)) := by
+    intro fx C next pre k n
     refine ⟨⟨[codingName k], [], ((C.of k).enc [.write (List.replicate n 0)], .eof)⟩, ?_, ?_⟩
     · exact requestCoding_name k [] _
     · have hk := requestCoding_name k [] ((C.of k).enc [.write (List.replicate n 0)], .eof)
       have hdec := (C.of k).roundtrip [.write (List.replicate n 0)]
       have ho := (C.of k).opens_of_dec _ _ hdec
-      rw [middleware_ran C next pre _ k hk ho, readAll_eof _ _ _ hdec]
+      rw [middleware_ran fx C next pre _ k hk ho, readAll_eof _ _ _ hdec]
       simp [plainOf]
   refine ⟨key, ?_⟩
   intro ⟨L, hL⟩
-  obtain ⟨r, _, hr⟩ := key toyCodecs (fun _ => []) none .gzip (L + 1)
-  have := hL toyCodecs (fun _ => []) none r _ hr
+  obtain ⟨r, _, hr⟩ := key true toyCodecs (fun _ => []) none .gzip (L + 1)
+  have := hL true toyCodecs (fun _ => []) none r _ hr
   simp at this
   omega
 
 /-- **decompress_bounded_by_expansion.**  The only bound there is: if every codec in use expands a
     stream by at most a factor `K` (identity: 1), the handler reads at most `K` times the bytes that
     arrived on the wire.  No constant term, no cap. -/
-theorem decompress_bounded_by_expansion (C : Codecs) (K : Nat) (hK1 : 1 ≤ K)
+theorem decompress_bounded_by_expansion (fx : Bool) (C : Codecs) (K : Nat) (hK1 : 1 ≤ K)
     (hgz : ∀ w p, C.gz.dec w = some p → p.length ≤ K * w.length)
     (hsn : ∀ w p, C.sn.dec w = some p → p.length ≤ K * w.length)
     (next : Handler) (pre : Option Nat) (r : Req) (b : Bytes)
-    (h : (middleware C next pre r).ran = some (.complete b)) : b.length ≤ K * r.body.1.length := by
+    (h : (middlewareG fx C next pre r).ran = some (.complete b)) : b.length ≤ K * r.body.1.length := by
   cases hk : requestCoding r with
-  | none => rw [middleware_refuse C next pre r hk] at h; cases h
+  | none => rw [middleware_refuse fx C next pre r hk] at h; cases h
   | some k =>
     cases ho : (C.of k).opens r.body.1 with
-    | false => rw [middleware_badopen C next pre r k hk ho] at h; cases h
+    | false => rw [middleware_badopen fx C next pre r k hk ho] at h; cases h
     | true =>
-      rw [middleware_ran C next pre r k hk ho] at h
+      rw [middleware_ran fx C next pre r k hk ho] at h
       injection h with h
       unfold readAll at h
       split at h
@@ -81,14 +82,110 @@ example : (middleware toyCodecs (fun _ => []) none ⟨[gzip], [], (encG [.write 
 
 /-- **decompress_no_state_no_panic.**  The model of the middleware is a total function without panic
     sites: every request, well-formed or not, is answered with a status (415, 400 or the handler's). -/
-theorem decompress_total (C : Codecs) (next : Handler) (pre : Option Nat) (r : Req) :
-    (middleware C next pre r).status = 415 ∨ (middleware C next pre r).status = 400 ∨
-    (middleware C next pre r).ran ≠ none := by
+theorem decompress_total (fx : Bool) (C : Codecs) (next : Handler) (pre : Option Nat) (r : Req) :
+    (middlewareG fx C next pre r).status = 415 ∨ (middlewareG fx C next pre r).status = 400 ∨
+    (middlewareG fx C next pre r).ran ≠ none := by
   cases hk : requestCoding r with
-  | none => left; rw [middleware_refuse C next pre r hk]; rfl
+  | none => left; rw [middleware_refuse fx C next pre r hk]; rfl
   | some k =>
     cases ho : (C.of k).opens r.body.1 with
-    | false => right; left; rw [middleware_badopen C next pre r k hk ho]; rfl
-    | true => right; right; rw [middleware_ran C next pre r k hk ho]; simp
+    | false => right; left; rw [middleware_badopen fx C next pre r k hk ho]; rfl
+    | true => right; right; rw [middleware_ran fx C next pre r k hk ho]; simp
+
+/-! ## the signers that buffer (after the repair of F-chttp-bomb) -/
+
+/-- **buffering_signers_bounded.**  For every limit and every (decoded) input stream, however long and
+    however it ends: `ioutil.ReadAll(io.LimitReader(r, max+1))` holds at most `max + 1` bytes; an input
+    longer than `max` is refused before any parsing (whatever follows in the stream, a read error
+    included, is never looked at); an input of at most `max` bytes that ends cleanly is handed to the
+    parser whole and unchanged; nothing else is accepted. -/
+theorem buffering_signers_bounded (max : Nat) (s : Stream) :
+    (bufferInput max s).held.length ≤ max + 1 ∧
+    (max < s.1.length → (bufferInput max s).res = .err "too-large") ∧
+    (s.1.length ≤ max → s.2 = .eof → bufferInput max s = ⟨s.1, .ok s.1⟩) ∧
+    (∀ b, (bufferInput max s).res = .ok b → b = s.1 ∧ b.length ≤ max ∧ s.2 = .eof) := by
+  have hlen : (s.1.take (max + 1)).length = min (max + 1) s.1.length := List.length_take
+  refine ⟨?_, ?_, ?_, ?_⟩
+  · unfold bufferInput
+    simp only []
+    split
+    · simp only [hlen]; omega
+    · split <;> (simp only [hlen]; omega)
+  · intro h
+    unfold bufferInput
+    have : (s.1.take (max + 1)).length > max := by rw [hlen]; omega
+    simp only []
+    rw [if_pos this]
+  · intro h he
+    unfold bufferInput
+    have h1 : ¬ (s.1.take (max + 1)).length > max := by rw [hlen]; omega
+    have h2 : s.1.take (max + 1) = s.1 := List.take_of_length_le (by omega)
+    simp only []
+    rw [if_neg h1, he, h2]
+  · intro b hb
+    unfold bufferInput at hb
+    simp only [] at hb
+    split at hb
+    · cases hb
+    · next hgt =>
+      rw [hlen] at hgt
+      have hle : s.1.length ≤ max := by omega
+      have h2 : s.1.take (max + 1) = s.1 := List.take_of_length_le (by omega)
+      split at hb
+      · next he =>
+        simp only [Res.ok.injEq] at hb
+        rw [h2] at hb
+        exact ⟨hb.symm, by rw [← hb]; exact hle, he⟩
+      · cases hb
+
+/-- lengths-only form (what the native driver prints for the `sbuf` ops): bytes held = min (max + 1) n,
+    refused iff n > max -/
+theorem buffering_lengths (max : Nat) (s : Stream) :
+    (bufferInput max s).held.length = min (max + 1) s.1.length ∧
+    ((bufferInput max s).res = .err "too-large" ↔ max < s.1.length) := by
+  have hlen : (s.1.take (max + 1)).length = min (max + 1) s.1.length := List.length_take
+  constructor
+  · unfold bufferInput
+    simp only []
+    split
+    · exact hlen
+    · split <;> exact hlen
+  · constructor
+    · intro h
+      unfold bufferInput at h
+      simp only [] at h
+      split at h
+      · next hgt => rw [hlen] at hgt; omega
+      · split at h <;> simp at h
+    · exact (buffering_signers_bounded max s).2.1
+
+/-- the two signers: at most 64 MiB + 1 resp. 256 MiB + 1 bytes in memory, whatever the middleware hands on
+    (`decompress_unbounded` remains true of the middleware itself) -/
+theorem buffering_signers_limits (s : Stream) :
+    (bufferInput appmanifestMax s).held.length ≤ 67108865 ∧ (bufferInput catMax s).held.length ≤ 268435457 := by
+  have h1 := (buffering_signers_bounded appmanifestMax s).1
+  have h2 := (buffering_signers_bounded catMax s).1
+  have e1 : appmanifestMax = 67108864 := by decide
+  have e2 : catMax = 268435456 := by decide
+  rw [e1] at h1; rw [e2] at h2
+  exact ⟨h1, h2⟩
+
+example : bufferInput 3 ([1, 2, 3, 4, 5, 6], .eof) = ⟨[1, 2, 3, 4], .err "too-large"⟩ ∧
+    bufferInput 3 ([1, 2, 3], .eof) = ⟨[1, 2, 3], .ok [1, 2, 3]⟩ ∧
+    bufferInput 3 ([1, 2], .error true) = ⟨[1, 2], .err "read"⟩ := by decide
+
+/-- **buffering_unbounded_orig** (finding F-chttp-bomb, the code before the repair): `ioutil.ReadAll(r)` held
+    the whole input, of any length -/
+theorem buffering_unbounded_orig (n : Nat) :
+    (bufferInputOrig (List.replicate n 0, .eof)).held.length = n ∧
+    (bufferInputOrig (List.replicate n 0, .eof)).res = .ok (List.replicate n 0) := by
+  simp [bufferInputOrig]
+
+/-- **generated_buffering_eq** (T-gen): both signers read through `io.LimitReader(r, maxInputSize+1)`, refuse
+    `len(blob) > maxInputSize`, and their constants are the model's -/
+theorem generated_buffering_eq :
+    Generated.CompressHttp.bufferingSigners =
+      [("signers/appmanifest", appmanifestMax, "io.LimitReader(r, maxInputSize+1)", "len(blob) > maxInputSize"),
+       ("signers/cat", catMax, "io.LimitReader(r, maxInputSize+1)", "len(blob) > maxInputSize")] := by decide
 
 end Relic.Props.C11
